@@ -245,6 +245,7 @@ impl World {
             OutMode::None | OutMode::Rm3 => Ok(Built::Absent),
             OutMode::Both | OutMode::LinkBoth => Err(EvalErr::Fail(207)),
             OutMode::Link => Ok(Built::Bytes(symlink_bytes(&link_dest(&cand.arg1)))),
+            OutMode::LinkDir(d) => Ok(Built::Bytes(symlink_bytes(&d))),
             OutMode::Direct => Err(EvalErr::Fail(206)),
         }
     }
